@@ -816,7 +816,10 @@ def owned_tensors(chk):
                 fns.append(node)
         for fn in fns:
             nodes = list(ast.walk(fn))
-            stores = any(isinstance(x, ast.Attribute) and x.attr in names and isinstance(x.ctx, ast.Store) for x in nodes)
+            # a rebinding (`m.input_scale = v`), an in-place copy (`m.input_scale.copy_(v)`) or a setter procedure called on the buffer
+            stores = any(isinstance(x, ast.Attribute) and x.attr in names and isinstance(x.ctx, ast.Store) for x in nodes) or \
+                any(isinstance(x, ast.Call) and ((isinstance(x.func, ast.Attribute) and x.func.attr == "copy_" and isinstance(x.func.value, ast.Attribute) and x.func.value.attr in names)
+                                                 or (isinstance(x.func, ast.Name) and any(isinstance(a, ast.Attribute) and a.attr in names for a in x.args[:1]))) for x in nodes)
             regs = any(isinstance(x, ast.Constant) and x.value in names for x in nodes) and any(isinstance(x, ast.Attribute) and x.attr == "register_buffer" for x in nodes)
             if not stores and not regs:
                 continue
